@@ -49,6 +49,8 @@ CONSTANTS Cases,           \* set of cases explored by the model
           DevNoAtomResname,\* deviation (independent seed C02-2): the residue name is not compared when the atoms of a link are looked up
           DevOrderedPairs, \* deviation (independent seed C10-2): joined residue pairs are collected and looked up as ORDERED pairs
           DevGateOnce,     \* deviation (independent seed2-C10-1): the gate skips molecules whose (always empty) graph name was already seen
+          DevGateStopsAtIgnored, \* deviation (independent seed5-C10-2): the gate pass ends at the first ignored molecule instead of skipping it
+          DevSkipSameItp,  \* deviation (independent seed5-C10-1): residue pairs with the same from_itp value are never examined
           DevGateBuildOnly,\* deviation (independent seed3-C10-2): the gate runs after the coordinate files and skips molecules without a residue to build
           DevMissingCache, \* deviation (independent seed3-C10-1): the candidate atoms of find_connecting_edges are remembered from the first evaluation
           DevDegree        \* deviation (C10): degree filter of find_connecting_edges compares the wrong way (m12)
@@ -100,8 +102,11 @@ EdgePairs(x) == IF x.edge THEN { {x.atoms[j], x.atoms[j + 1]} : j \in 1..(Len(x.
 \* edges of a block: consecutive atoms of its edge-making interactions, plus (for blocks projected from real objects) explicit ones
 BlockEdgesOf(c, r) == (UNION { { {<<r, a>> : a \in p} : p \in EdgePairs(BlockOf(c, r).inters[q]) } : q \in DOMAIN BlockOf(c, r).inters })
                       \cup (IF "xedges" \in DOMAIN BlockOf(c, r) THEN { {<<r, BlockOf(c, r).xedges[j][1]>>, <<r, BlockOf(c, r).xedges[j][2]>>} : j \in DOMAIN BlockOf(c, r).xedges } ELSE {})
-BlockEdges(c) == UNION {BlockEdgesOf(c, r) : r \in Rs(c)}
-BlockInts(c) == UNION { { [kind |-> BlockOf(c, r).inters[q].kind, atoms |-> [j \in DOMAIN BlockOf(c, r).inters[q].atoms |-> <<r, BlockOf(c, r).inters[q].atoms[j]>>],
+\* a multi-residue block (residues labelled from_itp) also brings interactions and edges BETWEEN its residues: c.fints (optional)
+FInts(c) == IF "fints" \in DOMAIN c THEN { [kind |-> c.fints[q].kind, atoms |-> c.fints[q].atoms, ver |-> c.fints[q].ver, par |-> c.fints[q].par, li |-> 0] : q \in DOMAIN c.fints } ELSE {}
+FEdges(c) == IF "fints" \in DOMAIN c THEN UNION { { {c.fints[q].atoms[j], c.fints[q].atoms[j + 1]} : j \in 1..(Len(c.fints[q].atoms) - 1) } : q \in DOMAIN c.fints } ELSE {}
+BlockEdges(c) == (UNION {BlockEdgesOf(c, r) : r \in Rs(c)}) \cup FEdges(c)
+BlockInts(c) == FInts(c) \cup UNION { { [kind |-> BlockOf(c, r).inters[q].kind, atoms |-> [j \in DOMAIN BlockOf(c, r).inters[q].atoms |-> <<r, BlockOf(c, r).inters[q].atoms[j]>>],
                            ver |-> BlockOf(c, r).inters[q].ver, par |-> BlockOf(c, r).inters[q].par, li |-> 0] : q \in DOMAIN BlockOf(c, r).inters } : r \in Rs(c) }
 
 (* ------------------------------------------------------------------ *)
@@ -275,22 +280,26 @@ CoordFlags(mols, co, m, r, used) ==
   ELSE <<[m |-> m, build |-> FALSE, backmap |-> FALSE]>> \o CoordFlags(mols, co, m, r + 1, used + 1)
 \* gen_coords generates something for molecule m: a residue position (build) or atom positions (backmap)
 Generated(fl, m) == \E j \in DOMAIN fl : fl[j].m = m /\ (fl[j].build \/ fl[j].backmap)
+\* molecules named in -ign (co.ign) are not built at all: they are taken from the coordinates as they are
+Ignored(mols, co, m) == "ign" \in DOMAIN co /\ InSeq(mols[m].name, co.ign)
 \* the clause of C10: a molecule for which anything is generated must be refused if its atoms are not all connected ...
-GateMustRefuse(mols, co) == LET fl == CoordFlags(mols, co, 1, 1, 0) IN \E m \in DOMAIN mols : ~mols[m].conn /\ Generated(fl, m)
+\* (wherever the molecule stands in the [ molecules ] list, before or after ignored ones)
+GateMustRefuse(mols, co) == LET fl == CoordFlags(mols, co, 1, 1, 0) IN \E m \in DOMAIN mols : ~mols[m].conn /\ Generated(fl, m) /\ ~Ignored(mols, co, m)
 \* ... and a topology of connected molecules must pass; a disconnected molecule that is completely supplied by -c is taken as it is,
 \* the statement says nothing about it (the code refuses it as well; not asserted)
 GateMustPass(mols) == \A m \in DOMAIN mols : mols[m].conn
 \* _check_molecules: one pass over the molecule list, IOError at the first disconnected one, BEFORE any coordinate file is read.
 \* DevGateOnce: a set of names already checked (the name read is networkx' Graph.name, "" for every molecule) skips the rest.
 \* DevGateBuildOnly: the pass runs after the coordinate files and skips molecules in which no residue is flagged build.
-RECURSIVE GateLoop(_, _, _, _)
-GateLoop(mols, fl, i, checked) ==
+RECURSIVE GateLoop(_, _, _, _, _)
+GateLoop(mols, fl, ign, i, checked) ==
   IF i > Len(mols) THEN FALSE
-  ELSE IF DevGateOnce /\ "" \in checked THEN GateLoop(mols, fl, i + 1, checked)
-  ELSE IF DevGateBuildOnly /\ ~(\E j \in DOMAIN fl : fl[j].m = i /\ fl[j].build) THEN GateLoop(mols, fl, i + 1, checked)
+  ELSE IF DevGateStopsAtIgnored /\ InSeq(mols[i].name, ign) THEN FALSE        \* `return` where `continue` was meant
+  ELSE IF DevGateOnce /\ "" \in checked THEN GateLoop(mols, fl, ign, i + 1, checked)
+  ELSE IF DevGateBuildOnly /\ ~(\E j \in DOMAIN fl : fl[j].m = i /\ fl[j].build) THEN GateLoop(mols, fl, ign, i + 1, checked)
   ELSE IF ~mols[i].conn THEN TRUE
-  ELSE GateLoop(mols, fl, i + 1, checked \cup {""})
-IGateRefuses(mols, co) == GateLoop(mols, CoordFlags(mols, co, 1, 1, 0), 1, {})
+  ELSE GateLoop(mols, fl, ign, i + 1, checked \cup {""})
+IGateRefuses(mols, co) == GateLoop(mols, CoordFlags(mols, co, 1, 1, 0), IF "ign" \in DOMAIN co THEN co.ign ELSE <<>>, 1, {})
 GateOK(mols, co) == /\ GateMustRefuse(mols, co) => IGateRefuses(mols, co)
                     /\ GateMustPass(mols) => ~IGateRefuses(mols, co)
 
@@ -393,7 +402,7 @@ WriteBack == /\ st.pc = "write"
              /\ UNCHANGED case
 \* find_missing_edges: candidate atoms are those whose degree in their fragment graph differs from their degree in the molecule;
 \* fragment graphs hold no edges except the one of the first residue, which is a copy of its block
-FragDeg(c, at, rm) == IF at[1] = FirstRes(c) THEN Cardinality({e \in BlockEdgesOf(c, at[1]) : at \in e /\ e \cap rm = {}}) ELSE 0
+FragDeg(c, at, rm) == IF at[1] = FirstRes(c) /\ "from_itp" \notin DOMAIN c.rattr[at[1]] THEN Cardinality({e \in BlockEdgesOf(c, at[1]) : at \in e /\ e \cap rm = {}}) ELSE 0
 MolDeg(E, at) == Cardinality({e \in E : at \in e})
 AllowedAtoms(c, E, rm, r) == { at \in AtomsOf(c, r) \ rm : IF DevDegree THEN FragDeg(c, at, rm) > MolDeg(E, at) ELSE FragDeg(c, at, rm) # MolDeg(E, at) }
 \* Ec, rmc: the molecule the candidate atoms are taken from - the current one; with DevMissingCache the one of the first evaluation
@@ -404,7 +413,10 @@ IMissingC(c, E, rm, Ec, rmc) ==
   IN IF DevOrderedPairs
      THEN { {c.edges[j].a, c.edges[j].b} : j \in {q \in DOMAIN c.edges : <<c.edges[q].a, c.edges[q].b>> \notin linked} }
      ELSE { {c.edges[j].a, c.edges[j].b} : j \in {q \in DOMAIN c.edges :
-              ~ \E x \in AllowedAtoms(c, Ec, rmc, c.edges[q].a), y \in AllowedAtoms(c, Ec, rmc, c.edges[q].b) : {x, y} \in E} }
+              /\ ~ \E x \in AllowedAtoms(c, Ec, rmc, c.edges[q].a), y \in AllowedAtoms(c, Ec, rmc, c.edges[q].b) : {x, y} \in E
+              \* every residue edge is examined, whatever attributes its residues carry; DevSkipSameItp: pairs from the same itp are not
+              /\ ~(DevSkipSameItp /\ "from_itp" \in DOMAIN c.rattr[c.edges[q].a] /\ "from_itp" \in DOMAIN c.rattr[c.edges[q].b]
+                                  /\ c.rattr[c.edges[q].a].from_itp = c.rattr[c.edges[q].b].from_itp)} }
 IMissing(c, E, rm) == IMissingC(c, E, rm, E, rm)
 \* the missing links may be asked for at any time: here once on the freshly mapped molecule (before any link) ...
 FindMissing0 == /\ st.pc = "missing0"
